@@ -145,6 +145,7 @@ def handle (req : Json) : R Json := do
   let h ← (← jlist (← jget req "objs")).mapM parseObj
   let root ← parseGVal (← jget req "root")
   if !Heap.wellFormedB h then throw "heap not topologically ordered"
+  if !Heap.pathsDistinctB h then throw "heap has an object with duplicate path elements"
   let qs ← (← jlist (← jget req "q")).mapM jstr
   let fails ← (← jlist (jgetD req "fails" (.arr #[]))).mapM jnat
   let mut out : List (String × Json) := []
